@@ -555,7 +555,7 @@ func genColumns(c *chooser, v primitive.ProtocolVersion, shape int, n int) []*me
 	ks, tb := c.str(), c.str()
 	mode := 0
 	if shape == 2 {
-		mode = c.val(4)
+		mode = c.val(5)
 	}
 	for i := range cols {
 		col := &message.ColumnMetadata{Keyspace: ks, Table: tb, Name: fmt.Sprintf("c%d", i), Type: genDataType(c, v, 2)}
@@ -575,6 +575,13 @@ func genColumns(c *chooser, v primitive.ProtocolVersion, shape int, n int) []*me
 				col.Keyspace = cap16(fmt.Sprintf("%d_%s", i, ks)) // same table name, different keyspaces
 			case 2:
 				col.Table = cap16(fmt.Sprintf("%d_%s", i, tb)) // same keyspace, different tables
+			case 3:
+				// the boundary between keyspace and table moves: "ks" + "." + "x.t" and "ks.x" + "." + "t" join to the same string
+				if i%2 == 1 {
+					col.Keyspace, col.Table = cap16(ks+".x"), tb
+				} else {
+					col.Keyspace, col.Table = ks, cap16("x."+tb)
+				}
 			default:
 				if i == n-1 && n >= 2 {
 					col.Keyspace = cap16("z" + ks) // only the last column is from elsewhere
